@@ -1228,6 +1228,9 @@ impl AnchorKind {
             if let Ok(index) = suffix.parse::<usize>() {
                 if index == 0 {
                     return Err(BadAnchorReason::ZeroIndex);
+                } else if index > u16::MAX as usize {
+                    // counts as a ligature component too, see the ligature case below
+                    return Err(BadAnchorReason::IndexTooLarge);
                 } else {
                     return Ok(AnchorKind::ComponentMarker(index));
                 }
